@@ -170,7 +170,8 @@ class PCoin(PStochasticPattern):
 
     def reset(self):
         super().reset()
-        self.current_value = 1.0 if self.regular else 0.0
+        # same value as the constructor sets; `regular` may be a pattern and is not tested here
+        self.current_value = 1.0
 
     def __next__(self):
         probability = Pattern.value(self.probability)
